@@ -22,7 +22,8 @@ SNIPPETS = [
     ("fullA2", "See Foo v. Bar, 1 U. S. 10, 12 (1990) (en banc).", "FullCaseCitation", 0),
     ("fullA3", "Smith v. Jones, 1 U.S. 10 (1990).", "FullCaseCitation", 0),  # the same document as fullA under fullB's party names
     ("fullA0", "1 U.S. 10.", "FullCaseCitation", 0),  # the same document as fullA, cited bare (no party names)
-    ("fullA4", "Foo v. Bar, 1 U.S. (1 Dall.) 10 (1790).", "FullCaseCitation", 0),  # the same document written with its nominative parenthetical (other matched text)
+    ("fullA4", "Foo v. Bar, 1 U.S. (1 Dall.) 10 (1790).", "FullCaseCitation", 0),
+    ("fullA5", "Foo v. Bar, 1 U. S. 10 (1801).", "FullCaseCitation", 0),  # variation spelling with a year before the edition's recorded start  # the same document written with its nominative parenthetical (other matched text)
     ("fullB", "Smith v. Jones, 1 U.S. 50 (1991).", "FullCaseCitation", 0),
     # one written reporter string that the year maps to two different editions, and the canonical spelling of one of them
     ("fullM1", "Doe v. Poe, 3 Marsh. 45 (Ky. 1820).", "FullCaseCitation", 0),  # A.K. Marsh.
@@ -50,6 +51,8 @@ SNIPPETS = [
     ("supraFoo", "Foo, supra, at 11.", "SupraCitation", 0),
     ("supraBar", "Bar, supra, at 11.", "SupraCitation", 0),
     ("supraNone", "Nobody, supra, at 11.", "SupraCitation", 0),
+    ("supraBros", "See Bros., supra, at 5.", "SupraCitation", 0),  # antecedent written with a final period; 'Bro' is part of 'Brown', 'Bros' is not
+    ("fullBrown", "Smith v. Brown, 3 U.S. 30 (1999).", "FullCaseCitation", 0),
     ("supraRoe", "Roe, supra, at 3.", "SupraCitation", 0),
     ("refJones", "Smith v. Jones, 1 U.S. 50 (1991). Later, Jones at 55 held.", "ReferenceCitation", 0),
     ("idNoPin", "Id.", "IdCitation", 0),
@@ -63,7 +66,7 @@ SNIPPETS = [
 ]
 NAMES = [s[0] for s in SNIPPETS]
 CORE12 = ["fullA", "fullA0", "fullA2", "fullA3", "fullB", "fullC", "fullC3", "fullP", "fullQ", "fullU", "shortAmb", "shortAmbJones", "shortP", "shortPQux", "supraBar", "refJones", "idNoPin", "idValid", "idEdgeOut", "unknown"]
-CLASS = {"fullA": "A", "fullA2": "A", "fullA0": "A", "fullA3": "A", "fullA4": "A", "fullM1": "MA", "fullM2": "MJ", "fullM3": "MJ", "jour2": "jour", "lawU1": "lawU", "lawU2": "lawU", "fullB": "B", "fullC": "C", "fullC3": "C3", "fullP": "P", "fullQ": "Q", "fullU": "U", "law": "law", "lawR1": "lawR1", "lawR2": "lawR2", "jour": "jour", "jourP": "jourP"}
+CLASS = {"fullA": "A", "fullA2": "A", "fullA0": "A", "fullA3": "A", "fullA4": "A", "fullA5": "A", "fullBrown": "Brown", "fullM1": "MA", "fullM2": "MJ", "fullM3": "MJ", "jour2": "jour", "lawU1": "lawU", "lawU2": "lawU", "fullB": "B", "fullC": "C", "fullC3": "C3", "fullP": "P", "fullQ": "Q", "fullU": "U", "law": "law", "lawR1": "lawR1", "lawR2": "lawR2", "jour": "jour", "jourP": "jourP"}
 PLACEHOLDER_CLASSES = ("P", "Q", "U")  # every instance is its own resource: the canonical state counts them (capped at 2)
 K = {}
 
@@ -100,11 +103,37 @@ def is_placeholder(c):
     return page is None or re.fullmatch(r"_+", page) is not None
 
 
+_DB_NORM = {}
+
+
+def db_norm(written):
+    """The edition name that reporters-db itself maps a written reporter string to, when that is unambiguous (exact edition
+    name, or a variation of exactly one edition); None otherwise. Computed from the database, not from eyecite's lookups."""
+    if not _DB_NORM:
+        from reporters_db import REPORTERS
+
+        targets = {}
+        for key, srcs in REPORTERS.items():
+            for src in srcs:
+                for name in src["editions"]:
+                    targets.setdefault(name, set()).add(name)
+                for var, name in src["variations"].items():
+                    targets.setdefault(var, set()).add(name)
+        for w, names in targets.items():
+            _DB_NORM[w] = next(iter(names)) if len(names) == 1 else None
+    return _DB_NORM.get(written)
+
+
 def norm_reporter(c):
-    """Normalised reporter = the guessed edition's own name (not its reporter family), else the written
-    string. Restated here so that the oracle does not inherit a defect of corrected_reporter()."""
+    """Normalised reporter: what the database maps the written string to when that is unambiguous (so that the oracle
+    does not depend on whether the code made its guess); for ambiguous strings the guessed edition's own name (not its
+    reporter family); else the written string."""
+    w = c.groups.get("reporter")
+    n = db_norm(w)
+    if n is not None:
+        return n
     g = c.edition_guess
-    return g.short_name if g is not None else c.groups.get("reporter")
+    return g.short_name if g is not None else w
 
 
 def same_document(a, b):
@@ -167,7 +196,7 @@ def oracle_c06(objs, res):
     return out
 
 
-_SIMPLE = re.compile(r"[A-Za-z][A-Za-z\-]*")
+_SIMPLE = re.compile(r"[A-Za-z][A-Za-z\-]*[.,]?")  # a word, possibly written with a final period or comma
 
 
 def _names(full):
@@ -205,6 +234,7 @@ def allowed_targets(objs, i):
             return []
         if not _SIMPLE.fullmatch(ag):
             return None
+        ag = ag.rstrip(".,")
         cl = _classes([f for f in cands if any(ag in n for n in _names(f))])
         return cl if len(cl) == 1 else []
     if isinstance(c, M.SupraCitation):
@@ -213,6 +243,7 @@ def allowed_targets(objs, i):
             return []
         if not _SIMPLE.fullmatch(ag):
             return None
+        ag = ag.rstrip(".,")
         cl = _classes([f for f in cases if any(ag in n for n in _names(f))])
         return cl if len(cl) == 1 else []
     if isinstance(c, M.ReferenceCitation):
